@@ -20,7 +20,7 @@ EXPLANATION = (
     "false changes nothing but the paths' for all inputs); first_only guards no write to dist/seen.  R-C08-4 the cutoff prune is a "
     "strict `candidate > cutoff` and the target exit follows the finalisation dist[v] = d.  R-C08-5 get_all_shortest_paths_involving "
     "asks all_pairs for (None, None, false, true) and filters with contains_path_through_node, whose slice excludes first and last.  "
-    "R-C08-8 the ContradictoryPaths refusal is immediately decided by a STRICT ordering comparison (ties are second shortest paths).  R-C08-9 no branch decided by the cutoff leaves the loop over the popped node's edges.  NOT decided: equality of the fast and full kernels' distances, symmetry, triangle inequality (value-level)."
+    "R-C08-8 the ContradictoryPaths refusal is immediately decided by a STRICT ordering comparison (ties are second shortest paths).  R-C08-9 no branch decided by the cutoff leaves the loop over the popped node's edges.  R-C08-10 inside the edge loop `== / != f64::MAX` is asked of the final distance vector, never of the tentative one.  NOT decided: equality of the fast and full kernels' distances, symmetry, triangle inequality (value-level)."
 )
 TRUSTED = ["rustc MIR construction", "flow-insensitive may-dependence: absence of dependence is definite"]
 
@@ -67,6 +67,7 @@ def run(ctx):
     rule7(ctx, prog, flows, full)
     rule8(ctx, prog, flows)
     rule9(ctx, prog, flows, full)
+    rule10(ctx, prog, flows)
 
 
 def rule1(ctx, prog, flows, cub, full, basic):
@@ -584,3 +585,69 @@ def rule9(ctx, prog, flows, full):
         ctx.require(not out, "R-C08-9", "cutoff-branch|%d" % n, "both outcomes of the cutoff test stay inside the edge loop",
                     "a branch decided by the cutoff leaves the loop over the popped node's edges: once one edge overshoots the cutoff the remaining edges of the row are never relaxed, so nodes within the cutoff are missing or are reported with a longer distance", loc_str(blk.term.span))
     ctx.floor("R-C08-9", "cutoff_branches_in_edge_loop", n, 1)
+
+
+def rule10(ctx, prog, flows):
+    """both kernels keep two distance vectors: the FINAL one, written once per node when it is popped, and the TENTATIVE
+    one, lowered while edges are relaxed.  "Already settled" is a question about the final vector (`dist[u] != MAX`);
+    asked of the tentative one (`seen[u] != MAX`: merely reached) it stops every later improvement of a node, so the
+    first route that discovers a node fixes its distance and the fast kernel disagrees with the full one."""
+    from hashord import natural_loop_blocks
+
+    ctx.rule("R-C08-10", "inside the loop over a popped node's edges, `== / != f64::MAX` (settled?) is asked of the FINAL distance vector, never of the tentative one")
+    n = 0
+    for sfx in ("dijkstra::dijkstra", "dijkstra::dijkstra_basic"):
+        k = prog.one(sfx)
+        fl = flows.of(k)
+        loops = []
+        for t in k.calls():
+            if t.callee and t.callee.short == "std::iter::Iterator::next":
+                lb = natural_loop_blocks(k, t.bb)
+                itd = panic.norm(panic.expand_names(fl, panic.norm(fl.describe(t.args[0], depth=10)), depth=8))
+                over_row = desc_mentions(itd, lambda x: x[0] == "call" and x[1].split("::")[-1] in ("get_successor_nodes_by_index", "get_predecessor_nodes_by_index"))
+                if len(lb) > 1 and over_row:
+                    loops.append(lb)
+        if not loops:
+            continue
+        inner = min(loops, key=len)
+        vecs = [l["i"] for l in k.locals if str(l["ty"]) == "std::vec::Vec<f64>"]
+        written_in, written_out = set(), set()
+        for st in k.stmts():
+            if st.k == "assign" and st.lhs.has_deref() and st.lhs.ty == "f64":
+                for o in fl.resolve(st.lhs):
+                    if o[0] == "L" and o[1] in vecs:
+                        (written_in if st.bb in inner else written_out).add(o[1])
+        tentative = written_in
+        final = written_out - written_in
+        if not tentative or not final:
+            ctx.undecided("R-C08-10", "vectors|" + sfx.split("::")[-1], "cannot tell the final from the tentative distance vector in %s (written in the edge loop: %s, outside: %s)" % (sfx, sorted(k.local_name(x) or x for x in written_in), sorted(k.local_name(x) or x for x in written_out)), loc_str(k.span))
+            continue
+        for st in k.stmts():
+            if st.bb not in inner or not (st.k == "assign" and st.rv.k == "binop" and st.rv.j["op"] in ("Eq", "Ne")):
+                continue
+            descs = [panic.norm(fl.describe(o, depth=6)) for o in st.rv.ops]
+            if not any(isinstance(d, tuple) and d[0] == "const" and "MAX" in d[1] for d in descs):
+                continue
+            n += 1
+            # the vector that is indexed in the compared expression itself (not what its contents were computed from)
+            named = set()
+            for d in descs:
+                def _bases(x, acc):
+                    if isinstance(x, tuple):
+                        if x[0] == "place" and "[" in x[1]:
+                            acc.add(x[1].split("[")[0].split(".")[0].lstrip("*&("))
+                        if x[0] == "call" and x[1].split("::")[-1] in ("index", "index_mut", "get", "get_unchecked") and x[2] and isinstance(x[2][0], tuple) and x[2][0][0] == "place":
+                            acc.add(x[2][0][1].split(".")[0].lstrip("*&"))
+                        for y in x[1:]:
+                            if isinstance(y, tuple):
+                                _bases(y, acc)
+                                for z in y:
+                                    if isinstance(z, tuple):
+                                        _bases(z, acc)
+                    return acc
+                named |= _bases(d, set())
+            on_tent = sorted(nm for nm in named if any(l_ in tentative for l_ in k.locals_named(nm)))
+            on_final = sorted(nm for nm in named if any(l_ in final for l_ in k.locals_named(nm)))
+            ctx.require(not on_tent, "R-C08-10", "settled-test|%s|%d" % (sfx.split("::")[-1], n), "%s asks `%s` of the final vector %s" % (sfx.split("::")[-1], st.rv.j["op"], on_final),
+                        "in the edge loop of %s the test against f64::MAX reads the TENTATIVE distance vector `%s`: a node that has merely been reached is treated as settled and is never relaxed again, so its distance is that of the first route that found it -- the fast kernel then disagrees with the full one (and distances change when an option is added)" % (sfx, "/".join(on_tent)), loc_str(st.span))
+    ctx.counters["settled_tests_in_edge_loops"] = n
